@@ -135,6 +135,155 @@ def _always_reraises(h: ast.ExceptHandler) -> bool:
     return bool(ps) and all(p.outcome == 'raise' for p in ps)
 
 
+def _helper_of(mod: Module, cls: T.Optional[str], call: ast.Call) -> T.Optional[ast.FunctionDef]:
+    """The repository helper a bare call statement refers to: `self.m(...)` of the same class or `f(...)` of the same module."""
+    f = call.func
+    if isinstance(f, ast.Attribute) and isinstance(f.value, ast.Name) and f.value.id == 'self' and cls is not None:
+        return T.cast(ast.FunctionDef, mod.methods(cls).get(f.attr))
+    if isinstance(f, ast.Name) and mod.has_func(f.id):
+        return T.cast(ast.FunctionDef, mod.func(f.id))
+    return None
+
+
+def _instantiate(callee: ast.FunctionDef, call: ast.Call, tag: str) -> T.Optional[T.List[ast.stmt]]:
+    """Body of `callee` with its parameters replaced by the call's arguments and its locals renamed apart; None when the
+    call is not a plain positional/keyword call of a helper that only falls off its end."""
+    a = callee.args
+    if a.vararg or a.kwarg or a.kwonlyargs or any(isinstance(x, ast.Starred) for x in call.args) or any(k.arg is None for k in call.keywords):
+        return None
+    params = [x.arg for x in a.posonlyargs + a.args]
+    if params and params[0] in ('self', 'cls') and isinstance(call.func, ast.Attribute):
+        params = params[1:]
+    if isinstance(callee, ast.AsyncFunctionDef) or callee.decorator_list:
+        return None
+    body = list(callee.body)
+    if body and isinstance(body[0], ast.Expr) and isinstance(body[0].value, ast.Constant) and isinstance(body[0].value.value, str):
+        body = body[1:]
+    if body and isinstance(body[-1], ast.Return) and body[-1].value is None:
+        body = body[:-1]
+    for st in body:
+        for n in walk_no_nested(st):
+            if isinstance(n, (ast.Return, ast.Yield, ast.YieldFrom, ast.Global, ast.Nonlocal, ast.FunctionDef, ast.Lambda)):
+                return None
+    given: T.Dict[str, ast.AST] = {}
+    for p_, x in zip(params, call.args):
+        given[p_] = x
+    if len(call.args) > len(params):
+        return None
+    for k in call.keywords:
+        if k.arg not in params or k.arg in given:
+            return None
+        given[k.arg] = k.value  # type: ignore[index]
+    defaults = dict(zip(params[len(params) - len(a.defaults):], a.defaults)) if a.defaults else {}
+    for p_ in params:
+        if p_ not in given:
+            if p_ not in defaults:
+                return None
+            given[p_] = defaults[p_]
+    stored = {n.id for st in body for n in ast.walk(st) if isinstance(n, ast.Name) and isinstance(n.ctx, (ast.Store, ast.Del))}
+    pre: T.List[ast.stmt] = []
+    env: T.Dict[str, ast.AST] = {}
+    ren: T.Dict[str, str] = {x: f'{x}__{tag}' for x in stored}
+    for p_, x in given.items():
+        simple = attr_chain(x) is not None or isinstance(x, ast.Constant)
+        if simple and p_ not in stored:
+            env[p_] = x
+        else:
+            ren[p_] = f'{p_}__{tag}'
+            pre.append(ast.copy_location(ast.Assign(targets=[ast.Name(id=ren[p_], ctx=ast.Store())], value=copy.deepcopy(x), lineno=call.lineno), call))
+    out = [_Sub(env).visit(s_) for s_ in _renamed(body, ren)]
+    return [ast.fix_missing_locations(x) for x in pre] + out
+
+
+def _inline_helpers(mod: Module, cls: T.Optional[str], stmts: T.List[ast.stmt], keep: T.Iterable[str] = (), depth: int = 2,
+                    _n: T.Optional[T.List[int]] = None) -> T.List[ast.stmt]:
+    """Replace bare call statements of same-class / same-module helpers by the helper's instantiated body (an extracted
+    block is analysed where it is called).  Calls the rules treat as primitives are listed in `keep`."""
+    keep = set(keep)
+    cnt = _n if _n is not None else [0]
+    out: T.List[ast.stmt] = []
+    for st in stmts:
+        if isinstance(st, ast.Expr) and isinstance(st.value, ast.Call) and depth > 0 and call_method(st.value) not in keep:
+            callee = _helper_of(mod, cls, st.value)
+            if callee is not None:
+                cnt[0] += 1
+                body = _instantiate(callee, st.value, f'h{cnt[0]}')
+                if body is not None:
+                    out.extend(_inline_helpers(mod, cls, body, keep, depth - 1, cnt))
+                    continue
+        if isinstance(st, (ast.If, ast.For, ast.AsyncFor, ast.While, ast.With, ast.AsyncWith, ast.Try)):
+            st = copy.copy(st)
+            for field in ('body', 'orelse', 'finalbody'):
+                sub = getattr(st, field, None)
+                if isinstance(sub, list) and sub:
+                    setattr(st, field, _inline_helpers(mod, cls, sub, keep, depth, cnt))
+            if isinstance(st, ast.Try):
+                hs = []
+                for h in st.handlers:
+                    h = copy.copy(h)
+                    h.body = _inline_helpers(mod, cls, h.body, keep, depth, cnt)
+                    hs.append(h)
+                st.handlers = hs
+        out.append(st)
+    return out
+
+
+def _inlined(mod: Module, qn: str, keep: T.Iterable[str] = ()) -> ast.FunctionDef:
+    """Copy of function `qn` in which extracted helper blocks are analysed in place."""
+    fn = mod.func(qn)
+    cls = qn.rsplit('.', 1)[0] if '.' in qn else None
+    fn2 = copy.copy(fn)
+    fn2.body = _inline_helpers(mod, cls, fn.body, set(keep) | {fn.name})
+    return T.cast(ast.FunctionDef, fn2)
+
+
+def _single_defs(fn: ast.AST) -> T.Dict[str, ast.AST]:
+    """Locals with exactly one binding in fn, that binding being `x = e` / `x: T = e` outside any loop."""
+    count: T.Dict[str, int] = {}
+    val: T.Dict[str, ast.AST] = {}
+
+    def visit(stmts: T.List[ast.stmt], in_loop: bool) -> None:
+        for st in stmts:
+            if isinstance(st, (ast.FunctionDef, ast.AsyncFunctionDef, ast.ClassDef)):
+                continue
+            simple = None
+            if isinstance(st, ast.Assign) and len(st.targets) == 1 and isinstance(st.targets[0], ast.Name):
+                simple = (st.targets[0].id, st.value)
+            elif isinstance(st, ast.AnnAssign) and isinstance(st.target, ast.Name) and st.value is not None:
+                simple = (st.target.id, st.value)
+            if simple is not None:
+                count[simple[0]] = count.get(simple[0], 0) + (1 if not in_loop else 2)
+                val[simple[0]] = simple[1]
+            else:
+                hdr = [st] if not hasattr(st, 'body') else [getattr(st, 'target', None), *[i.optional_vars for i in getattr(st, 'items', [])]]
+                for h in hdr:
+                    if h is None:
+                        continue
+                    for n in walk_no_nested(h):
+                        if isinstance(n, ast.Name) and isinstance(n.ctx, (ast.Store, ast.Del)):
+                            count[n.id] = count.get(n.id, 0) + 2
+            loop = in_loop or isinstance(st, (ast.For, ast.AsyncFor, ast.While))
+            for field in ('body', 'orelse', 'finalbody'):
+                sub = getattr(st, field, None)
+                if isinstance(sub, list) and sub and isinstance(sub[0], ast.stmt):
+                    visit(sub, loop)
+            for h in getattr(st, 'handlers', []):
+                visit(h.body, loop)
+    visit(fn.body, False)  # type: ignore[attr-defined]
+    params = {a.arg for a in fn.args.posonlyargs + fn.args.args + fn.args.kwonlyargs}  # type: ignore[attr-defined]
+    return {k: v for k, v in val.items() if count.get(k) == 1 and k not in params}
+
+
+def _resolve_deep(fn: ast.AST, e: ast.AST, rounds: int = 3) -> ast.AST:
+    """Substitute single-definition locals (reaching definition is unique) into e."""
+    defs = _single_defs(fn)
+    for _ in range(rounds):
+        if not (names_in(e) & set(defs)):
+            break
+        e = _subst(e, defs)
+    return e
+
+
 def _pos_params(fn: ast.AST) -> T.List[str]:
     return [a.arg for a in fn.args.posonlyargs + fn.args.args if a.arg not in ('self', 'cls')]  # type: ignore[attr-defined]
 
@@ -708,7 +857,7 @@ def _r2_judge(pm: T.Dict[ast.AST, T.Tuple[ast.AST, str]], rp: _R2Path, want: str
 def r2a(ctx: RuleCtx) -> None:
     mod = ctx.repo.module(OPTIONS)
     qn = 'OptionStore.update_project_options'
-    fn = mod.func(qn)
+    fn = _inlined(mod, qn, ('add_project_option', 'set_option', 'remove', 'get_value_object', 'set_value', 'is_project_option'))
     params = _pos_params(fn)
     if len(params) != 2:
         raise Undecided(f'{qn}: expected (project_options, subproject)')
@@ -769,13 +918,11 @@ def r2a(ctx: RuleCtx) -> None:
 # C08.R2b  removal of keys that are no longer declared
 
 def _resolve_local(fn: ast.AST, e: ast.AST) -> ast.AST:
-    """A Name with exactly one top-level definition in fn -> its value."""
+    """A Name whose only binding in fn is one assignment outside loops -> its value (one level)."""
     if isinstance(e, ast.Name):
-        defs = [st.value for st in ast.walk(fn) if isinstance(st, ast.Assign) and len(st.targets) == 1
-                and isinstance(st.targets[0], ast.Name) and st.targets[0].id == e.id]
-        top = [st for st in fn.body if isinstance(st, ast.Assign) and st.value in defs]  # type: ignore[attr-defined]
-        if len(defs) == 1 and len(top) == 1:
-            return defs[0]
+        defs = _single_defs(fn)
+        if e.id in defs:
+            return defs[e.id]
         raise Undecided(f'cannot resolve `{e.id}` to a single definition')
     return e
 
@@ -783,7 +930,7 @@ def _resolve_local(fn: ast.AST, e: ast.AST) -> ast.AST:
 def r2b(ctx: RuleCtx) -> None:
     mod = ctx.repo.module(OPTIONS)
     qn = 'OptionStore.update_project_options'
-    fn = mod.func(qn)
+    fn = _inlined(mod, qn, ('add_project_option', 'set_option', 'remove', 'get_value_object', 'set_value', 'is_project_option'))
     params = _pos_params(fn)
     loops = [s for s in fn.body if isinstance(s, ast.For) and _items_loop(s, params[0]) is None]
     if len(loops) != 1 or not isinstance(loops[0].target, ast.Name):
@@ -1000,7 +1147,7 @@ def _restore_problems(fn: ast.AST, h: ast.ExceptHandler, cdf: str) -> T.Tuple[T.
 
 
 def _prev_suffix_of_save(mod: Module) -> str:
-    fn = mod.func('save')
+    fn = _inlined(mod, 'save')
     rets = [n for n in walk_no_nested(fn) if isinstance(n, ast.Return)]
     if len(rets) != 1 or not isinstance(rets[0].value, ast.Name):
         raise Undecided('coredata.save: result is not one variable')
@@ -1345,7 +1492,7 @@ def _r4_analyse(fn: ast.AST, qn: str) -> _R4Result:
     if not cloops:
         raise Undecided(f'{qn}: backup copy is not in a loop')
     cloop = T.cast(ast.For, cloops[0])
-    src_iter = _resolve_local(fn, cloop.iter) if isinstance(cloop.iter, ast.Name) else cloop.iter
+    src_iter = _resolve_deep(fn, cloop.iter)
     has_cmd = any(isinstance(x, ast.Call) and call_method(x) == 'get_cmd_line_file' for x in ast.walk(src_iter))
     has_ini = any(isinstance(x, ast.Call) and call_method(x) == 'glob' and any(isinstance(k, ast.Constant) and k.value == '*.ini' for k in ast.walk(x))
                   for x in ast.walk(src_iter))
@@ -1561,7 +1708,7 @@ def _r5_key_checks(rp: _R5Path, subkey: str) -> T.List[T.Tuple[str, str, ast.AST
 def _conf_loop(ctx: RuleCtx) -> T.Tuple[Module, str, ast.AST, T.List[_R5Path], T.List[ast.stmt]]:
     mod = ctx.repo.module(MCONF)
     qn = 'Conf.__init__'
-    fn = mod.func(qn)
+    fn = _inlined(mod, qn)
     loops = [n for n in walk_no_nested(fn) if isinstance(n, ast.For) and _items_loop(n) is not None
              and (attr_chain(_items_loop(n)[2]) or '').endswith('options_files')]  # type: ignore[index]
     if len(loops) != 1:
@@ -1667,7 +1814,7 @@ def r5b(ctx: RuleCtx) -> None:
 def r5c(ctx: RuleCtx) -> None:
     mod = ctx.repo.module(IBASE)
     qn = 'InterpreterBase._load_option_file'
-    fn = mod.func(qn)
+    fn = _inlined(mod, qn)
     ps = paths.enumerate_paths(fn.body, pure={'exists', 'samefile', 'join'})
     walked = [_r5_walk(fn.body, p) for p in ps if p.outcome != 'raise']
     ctx.floor(f'{qn}: normal paths', len(walked), 3)
